@@ -186,4 +186,61 @@ def dsScatter (choice : List Nat → Nat → List Nat) (all : List Bool) (xs ys 
 def eligible (a b : List Val) (ri : Bool) : Nat :=
   if ri then cnt (goodMask a b) else a.length
 
+/-! ## `get_downsampled_scatter`: filter → scale → validity → downsample → mask composition -/
+
+/-- `np.log` on one value.  `lg` stands for the float logarithm on positive finite numbers
+(a parameter: the theorems hold for every `lg`, the driver gets the observed values). -/
+def logV (lg : Rat → Rat) : Val → Val
+  | .fin q => if 0 < q then .fin (lg q) else if q = 0 then .ninf else .nan
+  | .pinf => .pinf
+  | _ => .nan
+
+/-- `RTDCBase._apply_scale(a, scale, feat)`: `"log"` ↦ `np.log(a)`, `"linear"` ↦ `a` -/
+def applyScale (lg : Rat → Rat) (log : Bool) (col : List Val) : List Val :=
+  if log then col.map (logV lg) else col
+
+/-- `RTDCBase.get_downsampled_scatter(xax, yax, downsample=k, xscale, yscale,
+remove_invalid=ri, ret_mask=retMask)` branch by branch.  `xcol`, `ycol` are the two feature
+columns of the whole dataset (`self[xax]`, `self[yax]`), `all` is `self.filter.all`.
+`idx` refers to the FILTERED events (length `cnt all`), the returned mask to ALL events
+(`mask = zeros(len(self)); mask[np.where(all)[0]] = idx`); validity is decided on the
+SCALED values, the returned values are the UNSCALED ones. -/
+def getScatter (choice : List Nat → Nat → List Nat) (lg : Rat → Rat) (all : List Bool)
+    (xcol ycol : List Val) (xlog ylog : Bool) (k : Nat) (ri retMask : Bool) :
+    Res (List Val × List Val × Option (List Bool)) :=
+  let x := sel all xcol
+  let y := sel all ycol
+  let xs := applyScale lg xlog x
+  let ys := applyScale lg ylog y
+  match grid choice xs ys k ri with
+  | .error e => .error e
+  | .ok (_, _, idx) =>
+    if retMask then .ok (sel idx x, sel idx y, some (scatter all idx))
+    else .ok (sel idx x, sel idx y, none)
+
+/-- events that may be returned by `getScatter`: filtered events, with `remove_invalid` only
+those whose SCALED x and y are valid -/
+def scatterEligible (lg : Rat → Rat) (all : List Bool) (xcol ycol : List Val)
+    (xlog ylog : Bool) (ri : Bool) : Nat :=
+  eligible (applyScale lg xlog (sel all xcol)) (applyScale lg ylog (sel all ycol)) ri
+
+/-! ## "limit events" on top of the other filters (`Filter.update`, last stage) -/
+
+/-- `Filter.update`, last stage: `all = box & invalid & polygon & manual` (here `qual` = the
+conjunction of everything but `manual`), THEN the event limit thins `all` with
+`downsample_rand` (`limit = 0`: no limit) -/
+def limitSel (choice : List Nat → Nat → List Nat) (limit : Nat) (qual manual : List Bool) :
+    List Bool :=
+  let pre := List.zipWith (fun q m => q && m) qual manual
+  if limit > 0 then
+    scatter pre (rand choice (fun _ => true) (List.replicate (cnt pre) true) limit false).2
+  else pre
+
+/-- the WRONG order (a seeded change): the limit thins the other filters, the manual
+exclusions are applied afterwards -/
+def limitThenManual (choice : List Nat → Nat → List Nat) (limit : Nat) (qual manual : List Bool) :
+    List Bool :=
+  List.zipWith (fun q m => q && m)
+    (limitSel choice limit qual (List.replicate qual.length true)) manual
+
 end DclabModel.Down
